@@ -130,6 +130,28 @@ def payload_cases(ctx):
             for sid in ('none', '-', '00', core.hexs(ctx.rng.randbytes(32)), core.hexs(ctx.rng.randbytes(33))):
                 for ext in ('none', '-', '002b0000'):
                     out.append(('st %d %d chnew %s %s' % (s, d, sid, ext), 'chnew', None))
+            # constructed ServerHellos of every interesting version (the 1.2 structure carrying the draft-18 number, DTLS, SSLv3 ...)
+            for v in (0x0300, 0x0301, 0x0303, 0x0304, 0x7f12, 0x7f1c, 0xfefd, 0xfeff, 0, 0xffff):
+                out.append(('st %d %d shnew %d %s' % (s, d, v, ctx.rng.choice(('none', '-', '002b00020304'))), 'shnew', None))
+    # parsed ClientHellos (with and without session id) carrying each kind of extension alone, in every state and direction: the
+    # outcome may depend on the session id's presence only, never on what the extension block holds
+    import enc as _enc
+    kinds = []
+    for k in range(40):
+        w = core.Writer()
+        try:
+            _enc.gen_extension(ctx.rng, w, None, 'ext_client', 30)
+        except Exception:
+            continue
+        kinds.append(w.bytes())
+    kinds += [bytes.fromhex('00230003aabbcc'), bytes.fromhex('00230000'), bytes.fromhex('002a0000'), bytes.fromhex('0029000400020000'), bytes.fromhex('ff01000100')]
+    for eb in kinds:
+        for sid in (b'', bytes(32)):
+            body = b'\x03\x03' + bytes(32) + bytes([len(sid)]) + sid + b'\x00\x02\x00\x2f\x01\x00' + len(eb).to_bytes(2, 'big') + eb
+            msg = b'\x01' + len(body).to_bytes(3, 'big') + body
+            for s in range(25):
+                for d in (0, 1):
+                    out.append(('st %d %d hs %s' % (s, d, core.hexs(msg)), 'hs', None))
     return out
 
 
